@@ -84,12 +84,15 @@ TilesAlong(pb, kb, dim) ==
   /\ \A j \in 1 .. K : kb[j][dim][1] <= kb[j][dim][2]
 
 TilesProduct(pb, kb) ==
+  \* the children are the orthants around one point m, each orthant exactly once.  Stated on multisets:
+  \* when a side has zero width (cells at the resolution of the floats) several orthants are the same box.
   \E m \in [DOMAIN pb -> UNION {{pb[x][1], pb[x][2]} \cup {kb[j][x][1] : j \in DOMAIN kb} \cup {kb[j][x][2] : j \in DOMAIN kb} : x \in DOMAIN pb}] :
      /\ \A x \in DOMAIN pb : pb[x][1] <= m[x] /\ m[x] <= pb[x][2]
-     /\ LET halves(x) == {<<pb[x][1], m[x]>>, <<m[x], pb[x][2]>>}
-            want == {b \in [DOMAIN pb -> UNION {halves(x) : x \in DOMAIN pb}] : \A x \in DOMAIN pb : b[x] \in halves(x)}
-        IN  /\ {kb[j] : j \in DOMAIN kb} = want
-            /\ \A i, j \in DOMAIN kb : i # j => kb[i] # kb[j]
+     /\ LET pats == [DOMAIN pb -> {0, 1}]
+            boxOf(pt) == [x \in DOMAIN pb |-> IF pt[x] = 0 THEN <<pb[x][1], m[x]>> ELSE <<m[x], pb[x][2]>>]
+            want == {boxOf(pt) : pt \in pats}
+        IN  /\ \A j \in DOMAIN kb : kb[j] \in want
+            /\ \A b \in want : Cardinality({j \in DOMAIN kb : kb[j] = b}) = Cardinality({pt \in pats : boxOf(pt) = b})
 
 Tiling(P, pb, kb) ==
   /\ Len(kb) = Arity(P)
